@@ -1678,13 +1678,18 @@ class ContractionTree:
 
                 # delete info we can't change
                 for k in (
-                    "inds",
                     "einsum_eq",
                     "can_dot",
                     "tensordot_axes",
                     "tensordot_perm",
                 ):
                     tree.info[node].pop(k, None)
+
+                # n.b. any explicit ordering of this node's indices must be
+                # kept (minus ``ind``), since the cached contraction info of
+                # its parent, which might not be updated here, depends on it
+                if "inds" in node_info:
+                    node_info["inds"] = node_info["inds"].replace(ind, "")
 
         tree.already_optimized.clear()
         tree.contraction_cores.clear()
@@ -1732,9 +1737,10 @@ class ContractionTree:
                 tree._remove_node(p)
                 tree.contract_nodes_pair(l, r)
 
-        # reset caches
+        # reset caches, n.b. the index orders of re-added nodes have changed
+        # so the contraction info of any node above them is invalid as well
         tree.already_optimized.clear()
-        tree.contraction_cores.clear()
+        tree.reset_contraction_indices()
 
         return tree
 
@@ -1954,8 +1960,10 @@ class ContractionTree:
             if progbar:
                 pbar.close()
 
-        # invalidate any compiled contractions
-        tree.contraction_cores.clear()
+        # invalidate any compiled contractions, and the explicit contraction
+        # indices, since nodes above reconfigured subtrees still refer to the
+        # index order of the intermediates that have been replaced
+        tree.reset_contraction_indices()
 
         return tree
 
